@@ -219,7 +219,32 @@ func init() {
 		keys := allPubKeys()
 		return func(c *choice.Ctx) {
 			a := seeds[c.Choose("tokenA", len(seeds))]
-			switch c.Choose("kind", 4) {
+			switch c.Choose("kind", 5) {
+			case 4: // the same protected header map in another (non-preferred) encoding: the bytes differ from what was signed
+				id := algIDs[a.alg]
+				nint := uint64(-1 - id)
+				var prot []byte
+				what := ""
+				switch c.Choose("encoding", 6) {
+				case 0: // value with a 1-byte argument although it fits the initial byte
+					prot, what = mcbor.Encode(mcbor.M(mcbor.U(1), mcbor.N(nint).W(1))), "value-nonminimal-1"
+				case 1:
+					prot, what = mcbor.Encode(mcbor.M(mcbor.U(1), mcbor.N(nint).W(2))), "value-nonminimal-2"
+				case 2:
+					prot, what = mcbor.Encode(mcbor.M(mcbor.U(1).W(1), mcbor.N(nint))), "key-nonminimal"
+				case 3:
+					prot, what = mcbor.Encode(mcbor.M(mcbor.U(1), mcbor.N(nint)).W(1)), "map-head-nonminimal"
+				case 4:
+					prot, what = mcbor.Encode(mcbor.M(mcbor.U(1), mcbor.N(nint)).Ind()), "map-indefinite"
+				case 5:
+					prot, what = mcbor.Encode(mcbor.M(mcbor.U(1), mcbor.N(nint), mcbor.U(1), mcbor.N(nint))), "duplicate-entry"
+				}
+				if bytes.Equal(prot, a.view.prot) {
+					return
+				}
+				mut := envelope(prot, nil, a.view.payload, a.view.sig)
+				c02stats.State(mut)
+				c02Judge(c, c02stats, a, mut, a.key.Pub, true, "protected-reencoded:"+what)
 			case 0: // splice parts of B into A
 				b := seeds[c.Choose("tokenB", len(seeds))]
 				parts := 1 + c.Choose("parts", 7) // bitmask: 1 protected, 2 payload, 4 signature
